@@ -62,6 +62,9 @@ Proof.
   specialize (H _ Hin). cbn [snd] in H. rewrite W in H. lia.
 Qed.
 
+Lemma not_known_wrap_young s : known_C19_wrap s = false -> young s.
+Proof. unfold known_C19_wrap. intros H. apply youngb_spec. destruct (youngb s); [reflexivity|discriminate]. Qed.
+
 (* ------------------------------------------------------------------ *)
 (* the table holds exactly the calls that wait and have not been woken *)
 
